@@ -6,7 +6,8 @@ from vlib.chrunner import Cond
 PROP = "C15"
 KINDS = ("unknown element (with a known child)", "misplaced known element", "two same-named misplaced siblings",
          "allowed-by-name but invalid subtree, first position", "misplaced element in first position")
-POSN = ("eml", "dataset", "title", "creator", "individualName", "surName", "contact", "organizationName", "additionalMetadata", "metadata")
+POSN = ("eml", "dataset", "title", "creator", "individualName", "surName", "contact", "organizationName", "additionalMetadata / second creator",
+        "metadata / second individualName", "second surName")
 
 
 def run(tier, only=None):
@@ -20,6 +21,9 @@ def run(tier, only=None):
     for pos, kind in ((8, 1), (9, 0), (9, 2), (1, 0)):
         conds.append(Cond("harness.h_c15", "h_prune", t, part=10000 + kind * 10 + pos,
                           label="h_prune[metadata tree: %s under %s]" % (KINDS[kind], POSN[pos])))
+    for pos, kind in ((9, 0), (9, 1), (8, 1), (9, 2)):
+        conds.append(Cond("harness.h_c15", "h_prune", t, part=20000 + kind * 10 + pos,
+                          label="h_prune[look-alike sibling tree: %s under %s]" % (KINDS[kind], POSN[pos])))
     if tier != "quick":
         for pos1, kind1, pos2, kind2 in ((1, 1, 3, 0), (3, 3, 4, 1), (4, 2, 6, 0), (1, 3, 1, 1), (6, 1, 7, 0), (3, 0, 3, 1), (1, 4, 6, 3), (2, 1, 5, 0)):
             conds.append(Cond("harness.h_c15", "h_prune", t, part=kind2 * 1000 + (pos2 + 1) * 100 + kind1 * 10 + pos1,
